@@ -406,9 +406,14 @@ func genC18(r *RNG, tier string) []Case {
 			// "sets obtained from canonical text": the text of a is parsed by the real parser; the result must be the
 			// set the text denotes, print back to the same text, and answer membership like the directly built set
 			as, txt := a, canonSetText(a)
-			cs = append(cs, gtidCase("g56 op=parse_set s="+hx([]byte(txt)), "from-canonical-text", true, func(resp map[string]string) Outcome {
+			serverText := txt
+			if i%3 == 0 {
+				// exactly as the server prints it (SELECT @@gtid_executed, SHOW MASTER STATUS): a newline after each comma
+				serverText = strings.ReplaceAll(txt, ",", ",\n")
+			}
+			cs = append(cs, gtidCase("g56 op=parse_set s="+hx([]byte(serverText)), "from-canonical-text", true, func(resp map[string]string) Outcome {
 				impl := catch(func() string {
-					x, _, err := replication.VerifParseGTIDSet("MySQL56", txt)
+					x, _, err := replication.VerifParseGTIDSet("MySQL56", serverText)
 					if err != nil {
 						return "err"
 					}
